@@ -130,6 +130,113 @@ Proof.
 Qed.
 End Batch.
 
+(* ---------- relaxations never unset a distance, and set the distance of the node they relax ---------- *)
+Lemma relax_w_mono G1 v st w x : sD st x <> None -> sD (relax_w G1 v st w) x <> None.
+Proof.
+  unfold relax_w. destruct (xlt _ _) eqn:E1; [|destruct (xeq _ _); cbn [sD]; auto].
+  cbn [sD]. unfold vupd. destruct (Nat.eqb x w); [|auto]. intros _.
+  unfold xlt in E1. destruct (xadd (sD st v) (G1 v w)); [discriminate|discriminate].
+Qed.
+Lemma relax_w_sets G1 v st w : sD st v <> None -> sD (relax_w G1 v st w) w <> None.
+Proof.
+  intros Hv. unfold relax_w. destruct (sD st v) as [dv|] eqn:Ev; [|congruence]. cbn [xadd].
+  destruct (xlt (Some (dv + G1 v w)) (sD st w)) eqn:E1.
+  - cbn [sD]. rewrite vupd_same. discriminate.
+  - destruct (xeq (Some (dv + G1 v w)) (sD st w)) eqn:E2; cbn [sD];
+      (destruct (sD st w); [discriminate|cbn in E1; discriminate]).
+Qed.
+Lemma fold_relax_w_mono G1 v l : forall s x, sD s x <> None -> sD (fold_left (relax_w G1 v) l s) x <> None.
+Proof. induction l as [|b l IH]; intros s x Hx; cbn [fold_left]; [exact Hx|]. apply IH, relax_w_mono, Hx. Qed.
+Lemma visit_w_mono n G1 st v x : sD st x <> None -> sD (visit_w n G1 st v) x <> None.
+Proof. intros H. unfold visit_w. apply fold_relax_w_mono. unfold push. cbn [sD]. exact H. Qed.
+Lemma fold_visit_w_mono n G1 V : forall st x, sD st x <> None -> sD (fold_left (visit_w n G1) V st) x <> None.
+Proof. induction V as [|v V IH]; intros st x Hx; cbn [fold_left]; [exact Hx|]. apply IH, visit_w_mono, Hx. Qed.
+Lemma visit_w_sets n G1 st v : sD st v <> None ->
+  forall w, (w < n)%nat -> G1 v w <> 0 -> sD (visit_w n G1 st v) w <> None.
+Proof.
+  intros Hv w Hw Hg. unfold visit_w.
+  assert (Hin : In w (wherev n (fun w => nzb (G1 v w)))).
+  { apply wherev_In. split; [exact Hw|]. unfold nzb. apply negb_true_iff, Z.eqb_neq. exact Hg. }
+  assert (Hv' : sD (push st v) v <> None) by (unfold push; cbn [sD]; exact Hv).
+  revert Hin Hv'. generalize (push st v). generalize (wherev n (fun w => nzb (G1 v w))).
+  induction l as [|b l IH]; intros s Hin Hs; [destruct Hin|]. cbn [fold_left]. destruct Hin as [->|Hin].
+  - apply fold_relax_w_mono. apply relax_w_sets. exact Hs.
+  - apply IH; [exact Hin|]. apply relax_w_mono. exact Hs.
+Qed.
+Lemma fold_visit_w_sets n G1 V : forall st, (forall v, In v V -> sD st v <> None) ->
+  forall v w, In v V -> (w < n)%nat -> G1 v w <> 0 -> sD (fold_left (visit_w n G1) V st) w <> None.
+Proof.
+  induction V as [|a V IH]; intros st HV v w Hv Hw Hg; [destruct Hv|]. cbn [fold_left]. destruct Hv as [->|Hv].
+  - apply fold_visit_w_mono. apply visit_w_sets; auto. apply HV. left; reflexivity.
+  - apply (IH (visit_w n G1 st a)) with (v := v); auto. intros x Hx. apply visit_w_mono. apply HV. right; exact Hx.
+Qed.
+
+(* quantitative versions: distances only decrease; a relaxation leaves D[w] <= D[v] + G1[v,w] *)
+Lemma relax_w_dec G1 v st w x d : sD st x = Some d ->
+  exists d', sD (relax_w G1 v st w) x = Some d' /\ d' <= d.
+Proof.
+  intros Hx. unfold relax_w. destruct (xlt _ _) eqn:E1; [|destruct (xeq _ _); cbn [sD]; exists d; split; [exact Hx|lia]].
+  cbn [sD]. unfold vupd. destruct (Nat.eqb_spec x w) as [->|Hne]; [|exists d; split; [exact Hx|lia]].
+  rewrite Hx in E1. destruct (xadd (sD st v) (G1 v w)) as [y|]; [|discriminate].
+  cbn in E1. apply Z.ltb_lt in E1. exists y. split; [reflexivity|lia].
+Qed.
+Lemma relax_w_setq G1 v st w dv : sD st v = Some dv ->
+  exists dw, sD (relax_w G1 v st w) w = Some dw /\ dw <= dv + G1 v w.
+Proof.
+  intros Ev. unfold relax_w. rewrite Ev. cbn [xadd].
+  destruct (xlt (Some (dv + G1 v w)) (sD st w)) eqn:E1.
+  - cbn [sD]. rewrite vupd_same. exists (dv + G1 v w). split; [reflexivity|lia].
+  - destruct (sD st w) as [dw|] eqn:Ew; [|cbn in E1; discriminate].
+    cbn in E1. apply Z.ltb_ge in E1.
+    destruct (xeq (Some (dv + G1 v w)) (Some dw)); cbn [sD]; rewrite Ew; exists dw; split; try reflexivity; lia.
+Qed.
+Lemma fold_relax_w_dec G1 v l : forall s x d, sD s x = Some d ->
+  exists d', sD (fold_left (relax_w G1 v) l s) x = Some d' /\ d' <= d.
+Proof.
+  induction l as [|b l IH]; intros s x d Hx; cbn [fold_left]; [exists d; split; [exact Hx|lia]|].
+  destruct (relax_w_dec G1 v s b x d Hx) as (d1 & H1 & H2).
+  destruct (IH _ x d1 H1) as (d2 & H3 & H4). exists d2. split; [exact H3|lia].
+Qed.
+Lemma visit_w_dec n G1 st v x d : sD st x = Some d -> exists d', sD (visit_w n G1 st v) x = Some d' /\ d' <= d.
+Proof. intros H. unfold visit_w. apply fold_relax_w_dec. unfold push. cbn [sD]. exact H. Qed.
+Lemma fold_visit_w_dec n G1 V : forall st x d, sD st x = Some d ->
+  exists d', sD (fold_left (visit_w n G1) V st) x = Some d' /\ d' <= d.
+Proof.
+  induction V as [|v V IH]; intros st x d Hx; cbn [fold_left]; [exists d; split; [exact Hx|lia]|].
+  destruct (visit_w_dec n G1 st v x d Hx) as (d1 & H1 & H2).
+  destruct (IH _ x d1 H1) as (d2 & H3 & H4). exists d2. split; [exact H3|lia].
+Qed.
+Lemma visit_w_setq n G1 st v dv : sD st v = Some dv ->
+  forall w, (w < n)%nat -> G1 v w <> 0 -> exists dw, sD (visit_w n G1 st v) w = Some dw /\ dw <= dv + G1 v w.
+Proof.
+  intros Hv w Hw Hg. unfold visit_w.
+  assert (Hin : In w (wherev n (fun w => nzb (G1 v w)))).
+  { apply wherev_In. split; [exact Hw|]. unfold nzb. apply negb_true_iff, Z.eqb_neq. exact Hg. }
+  assert (Hv' : exists dv', sD (push st v) v = Some dv' /\ dv' <= dv) by (exists dv; unfold push; cbn [sD]; split; [exact Hv|lia]).
+  revert Hin Hv'. generalize (push st v). generalize (wherev n (fun w => nzb (G1 v w))).
+  induction l as [|b l IH]; intros s Hin (dv' & Hs & Hle); [destruct Hin|]. cbn [fold_left]. destruct Hin as [->|Hin].
+  - destruct (relax_w_setq G1 v s w dv' Hs) as (dw & H1 & H2).
+    destruct (fold_relax_w_dec G1 v l _ w dw H1) as (dw' & H3 & H4). exists dw'. split; [exact H3|lia].
+  - apply IH; [exact Hin|]. destruct (relax_w_dec G1 v s b v dv' Hs) as (d1 & H1 & H2). exists d1. split; [exact H1|lia].
+Qed.
+Lemma fold_visit_w_setq n G1 V cur : forall st, (forall v, In v V -> exists dv, sD st v = Some dv /\ dv <= cur) ->
+  forall v w, In v V -> (w < n)%nat -> G1 v w <> 0 ->
+  exists dw, sD (fold_left (visit_w n G1) V st) w = Some dw /\ dw <= cur + G1 v w.
+Proof.
+  induction V as [|a V IH]; intros st HV v w Hv Hw Hg; [destruct Hv|]. cbn [fold_left]. destruct Hv as [->|Hv].
+  - destruct (HV v (or_introl eq_refl)) as (dv & Ev & Hle).
+    destruct (visit_w_setq n G1 st v dv Ev w Hw Hg) as (dw & H1 & H2).
+    destruct (fold_visit_w_dec n G1 V _ w dw H1) as (dw' & H3 & H4). exists dw'. split; [exact H3|lia].
+  - apply (IH (visit_w n G1 st a)) with (v := v); auto. intros x Hx.
+    destruct (HV x (or_intror Hx)) as (dv & Ev & Hle).
+    destruct (visit_w_dec n G1 st a x dv Ev) as (d1 & H1 & H2). exists d1. split; [exact H1|lia].
+Qed.
+
+(* every connection out of a reached node satisfies the triangle inequality (in particular leads to a reached node) *)
+Definition closed (n : nat) (G : mat Z) (st : sst) : Prop :=
+  forall v w dv, (v < n)%nat -> (w < n)%nat -> sD st v = Some dv -> G v w <> 0 ->
+  exists dw, sD st w = Some dw /\ dw <= dv + G v w.
+
 (* ---------- helpers ---------- *)
 Lemma tab_sst_spec n st :
   (forall x, (x < n)%nat -> sD (tab_sst n st) x = sD st x) /\
@@ -252,7 +359,7 @@ Lemma vis_length n st : length (vis n st) = (n - sqf st)%nat.
 Proof. unfold vis. rewrite map_length, seq_length. reflexivity. Qed.
 
 (* ---------- the loop-head invariant of `while True` ---------- *)
-Record LH (n u : nat) (Sm : vec bool) (G1 : mat Z) (V : list nat) (st : sst) (cur : Z) : Prop := {
+Record LH (n : nat) (G : mat Z) (u : nat) (Sm : vec bool) (G1 : mat Z) (V : list nat) (st : sst) (cur : Z) : Prop := {
   lh_qf : (sqf st <= n)%nat;
   lh_nd : NoDup (vis n st);
   lh_vis : forall x, In x (vis n st) <-> (x < n)%nat /\ Sm x = false;
@@ -266,7 +373,10 @@ Record LH (n u : nat) (Sm : vec bool) (G1 : mat Z) (V : list nat) (st : sst) (cu
   lh_last : last (rev V ++ vis n st) u = u;
   lh_P : forall x w, (x < n)%nat -> (w < n)%nat -> sP st x w = true ->
          Sm w = false /\ exists dw g, sD st w = Some dw /\ 0 < g /\ sD st x = Some (dw + g);
-  lh_NP : forall x, (x < n)%nat -> sD st x <> None -> 0 < sNP st x }.
+  lh_NP : forall x, (x < n)%nat -> sD st x <> None -> 0 < sNP st x;
+  lh_G1x : forall i j, (i < n)%nat -> (j < n)%nat -> G1 i j = if Sm j then G i j else 0;
+  lh_cl : forall v w, (v < n)%nat -> (w < n)%nat -> Sm v = false -> G v w <> 0 ->
+          exists dv dw, sD st v = Some dv /\ sD st w = Some dw /\ dw <= dv + G v w }.
 
 (* what the search phase guarantees at exit *)
 Definition queue_ok (n u : nat) (st : sst) : Prop :=
@@ -292,18 +402,18 @@ Lemma queue_ok_intro n u st front :
   queue_ok n u st.
 Proof. intros. exists front. tauto. Qed.
 
-Lemma LH_V_le_qf n u Sm G1 V st cur : LH n u Sm G1 V st cur -> (length V <= sqf st)%nat.
+Lemma LH_V_le_qf n G u Sm G1 V st cur : LH n G u Sm G1 V st cur -> (length V <= sqf st)%nat.
 Proof.
   intros H. assert (Hnd : NoDup (V ++ vis n st)).
-  { apply NoDup_app_intro; [apply (lh_Vnd _ _ _ _ _ _ _ H)|apply (lh_nd _ _ _ _ _ _ _ H)|].
-    intros z Hz Hz'. apply (lh_V _ _ _ _ _ _ _ H) in Hz. apply (lh_vis _ _ _ _ _ _ _ H) in Hz'.
+  { apply NoDup_app_intro; [apply (lh_Vnd _ _ _ _ _ _ _ _ H)|apply (lh_nd _ _ _ _ _ _ _ _ H)|].
+    intros z Hz Hz'. apply (lh_V _ _ _ _ _ _ _ _ H) in Hz. apply (lh_vis _ _ _ _ _ _ _ _ H) in Hz'.
     destruct Hz as (_ & E & _), Hz' as (_ & E'). congruence. }
   assert (Hincl : incl (V ++ vis n st) (seq 0 n)).
   { intros z Hz. apply in_seq. apply in_app_iff in Hz. destruct Hz as [Hz|Hz].
-    - apply (lh_V _ _ _ _ _ _ _ H) in Hz. lia.
-    - apply (lh_vis _ _ _ _ _ _ _ H) in Hz. lia. }
+    - apply (lh_V _ _ _ _ _ _ _ _ H) in Hz. lia.
+    - apply (lh_vis _ _ _ _ _ _ _ _ H) in Hz. lia. }
   pose proof (NoDup_incl_length Hnd Hincl) as Hl. rewrite app_length, seq_length, vis_length in Hl.
-  pose proof (lh_qf _ _ _ _ _ _ _ H). lia.
+  pose proof (lh_qf _ _ _ _ _ _ _ _ H). lia.
 Qed.
 
 Lemma fill_front_ok n st un : length un = sqf st -> (sqf st <= n)%nat ->
@@ -323,15 +433,15 @@ Proof.
       destruct (Nat.ltb_spec i (sqf st)); [lia|reflexivity].
 Qed.
 
-Lemma search_w_ok n u : forall fuel Sm G1 V st cur,
-  LH n u Sm G1 V st cur -> (sqf st <= fuel)%nat ->
-  exists st', search_w fuel n Sm G1 V st = Some st' /\ queue_ok n u st'.
+Lemma search_w_ok n G u : nonneg_len n G -> forall fuel Sm G1 V st cur,
+  LH n G u Sm G1 V st cur -> (sqf st <= fuel)%nat ->
+  exists st', search_w fuel n Sm G1 V st = Some st' /\ queue_ok n u st' /\ closed n G st'.
 Proof.
-  induction fuel as [|f IH]; intros Sm G1 V st cur H Hf.
-  { exfalso. pose proof (LH_V_le_qf _ _ _ _ _ _ _ H) as HV. pose proof (lh_Vne _ _ _ _ _ _ _ H).
+  intros Hnn. induction fuel as [|f IH]; intros Sm G1 V st cur H Hf.
+  { exfalso. pose proof (LH_V_le_qf _ _ _ _ _ _ _ _ H) as HV. pose proof (lh_Vne _ _ _ _ _ _ _ _ H).
     destruct V; [congruence|]. cbn [length] in HV. lia. }
-  pose proof (LH_V_le_qf _ _ _ _ _ _ _ H) as HVq.
-  destruct H as [Hqf Hnd Hvis HvisD Hsort HVne HVnd HV HS HG1 Hlast HP HNP].
+  pose proof (LH_V_le_qf _ _ _ _ _ _ _ _ H) as HVq.
+  destruct H as [Hqf Hnd Hvis HvisD Hsort HVne HVnd HV HS HG1 Hlast HP HNP HG1x Hcl].
   cbn [search_w].
   set (S1 := tabv false n (fun i => if nmem i V then false else Sm i)).
   set (G2 := zero_cols n V G1).
@@ -408,6 +518,25 @@ Proof.
   assert (HS1D : forall x, (x < n)%nat -> S1 x = true -> sD st1 x = None \/ exists d, sD st1 x = Some d /\ cur < d).
   { intros x Hx. rewrite (TD x Hx). apply B2; exact Hx. }
   assert (Hqf1n : (sqf st1 <= n)%nat) by lia.
+  assert (HG2x : forall i j, (i < n)%nat -> (j < n)%nat -> G2 i j = if S1 j then G i j else 0).
+  { intros i j Hi Hj. unfold G2, zero_cols. rewrite tab_spec by assumption. rewrite (HS1 j Hj), (HG1x i j Hi Hj).
+    destruct (nmem j V); reflexivity. }
+  assert (Hcl1 : forall v w, (v < n)%nat -> (w < n)%nat -> S1 v = false -> G v w <> 0 ->
+            exists dv dw, sD st1 v = Some dv /\ sD st1 w = Some dw /\ dw <= dv + G v w).
+  { intros v w Hv Hw Hv1 Hg. rewrite (TD v Hv), (TD w Hw), (B1 v Hv Hv1).
+    assert (Hgpos : 0 < G v w) by (specialize (Hnn v w Hv Hw); lia).
+    pose proof Hv1 as Hv1'. apply HS1f in Hv1'; [|exact Hv]. destruct Hv1' as [HvV|HvS].
+    + pose proof (proj1 (HV v) HvV) as (_ & _ & Ev). exists cur. rewrite Ev.
+      destruct (S1 w) eqn:Ew1.
+      * destruct (fold_visit_w_setq n G2 V cur st) with (v := v) (w := w) as (dw & H1 & H2); auto.
+        -- intros x Hx. apply HV in Hx. destruct Hx as (_ & _ & E). exists cur. split; [exact E|lia].
+        -- rewrite (HG2x v w Hv Hw), Ew1. exact Hg.
+        -- exists dw. fold st0 in H1. rewrite (HG2x v w Hv Hw), Ew1 in H2. auto.
+      * assert (Hin : In w (vis n st1)) by (apply Hvis1_in; auto).
+        destruct (HvisD1 w Hin) as [d [E Hd]]. rewrite (TD w Hw) in E. exists d. split; [reflexivity|]. split; [exact E|lia].
+    + destruct (Hcl v w Hv Hw HvS Hg) as (dv & dw & E1 & E2 & Hle). exists dv. rewrite E1.
+      destruct (fold_visit_w_dec n G2 V st w dw E2) as (dw' & H1 & H2). fold st0 in H1.
+      exists dw'. split; [reflexivity|]. split; [exact H1|lia]. }
   destruct (wherev n S1) as [|a sel'] eqn:Esel.
   - (* every node is permanent *)
     exists st1. split; [reflexivity|].
@@ -417,6 +546,10 @@ Proof.
       assert (In x (wherev n S1)) by (apply wherev_In; auto). rewrite Esel in H. exact H. }
     pose proof (full_length _ _ Hnd1 Hall) as Hlen. rewrite vis_length in Hlen.
     assert (Hq0 : sqf st1 = O) by lia.
+    split; [|intros v w dv Hv Hw Edv Hg;
+             assert (Hv1 : S1 v = false) by (apply Hvis1_in, Hall; exact Hv);
+             destruct (Hcl1 v w Hv Hw Hv1 Hg) as (dv' & dw & E1 & E2 & Hle);
+             exists dw; split; [exact E2|]; assert (dv' = dv) by congruence; lia].
     apply (queue_ok_intro n u st1 []); auto.
     + unfold vis, to_list. rewrite Hq0, Nat.sub_0_r. reflexivity.
     + constructor.
@@ -473,6 +606,10 @@ Proof.
         pose proof (full_length _ _ Hnd' Hfull) as Hl. rewrite app_length, vis_length in Hl. lia. }
       destruct (fill_front_ok n st1 un Hlen Hqf1n) as (st2 & E2 & ED & ENP & EP & Eqf & Evis & Elist).
       exists st2. split; [exact E2|].
+      split; [|unfold closed; rewrite ED; intros v w dv Hv Hw Edv Hg;
+               assert (Hv1 : S1 v = false) by (destruct (S1 v) eqn:ES; [rewrite (Hnone v Hv ES) in Edv; discriminate|reflexivity]);
+               destruct (Hcl1 v w Hv Hw Hv1 Hg) as (dv' & dw & E1 & E2 & Hle);
+               exists dw; split; [exact E2|]; assert (dv' = dv) by congruence; lia].
       apply (queue_ok_intro n u st2 un); rewrite ?Evis, ?ED, ?ENP, ?EP, ?Eqf; auto.
       * apply wherev_NoDup.
       * intros x. rewrite Hun. split.
@@ -488,7 +625,7 @@ Qed.
 
 (* ---------- queue_slots for the weighted routines ---------- *)
 Lemma LH_init n G u : (u < n)%nat -> nonneg_len n G ->
-  LH n u (fun _ => true) (tab 0 n n G) [u] (init_w n u) 0.
+  LH n G u (fun _ => true) (tab 0 n n G) [u] (init_w n u) 0.
 Proof.
   intros Hu HG. unfold init_w.
   assert (Hvis : vis n (mk_sst (vupd (fun _ => None) u (Some 0)) (vupd (fun _ => 0) u 1) (fun _ _ => false) (fun _ => O) n) = []).
@@ -510,13 +647,21 @@ Proof.
   - reflexivity.
   - intros x w _ _ E. discriminate.
   - intros x Hx. unfold vupd. destruct (Nat.eqb x u); [lia|congruence].
+  - intros i j Hi Hj. apply tab_spec; assumption.
+  - intros v w _ _ E. discriminate.
+Qed.
+
+Theorem queue_slots_w_closed n G u : (u < n)%nat -> nonneg_len n G ->
+  exists st, source_w n G u = Some st /\ queue_ok n u st /\ closed n G st.
+Proof.
+  intros Hu HG. unfold source_w. apply (search_w_ok n G u HG n _ _ _ _ 0 (LH_init n G u Hu HG)).
+  unfold init_w. cbn [sqf]. lia.
 Qed.
 
 Theorem queue_slots_w n G u : (u < n)%nat -> nonneg_len n G ->
   exists st, source_w n G u = Some st /\ queue_ok n u st.
 Proof.
-  intros Hu HG. unfold source_w. apply (search_w_ok n u n _ _ _ _ 0 (LH_init n G u Hu HG)).
-  unfold init_w. cbn [sqf]. lia.
+  intros Hu HG. destruct (queue_slots_w_closed n G u Hu HG) as (st & E & H & _). exists st. auto.
 Qed.
 
 (* consequences in the form the property / the accumulation use *)
